@@ -27,7 +27,7 @@ def kwargs_of(call):
 
 
 # ------------------------------------------------------------------------------------------------- state facts (C14)
-@target("stateFacts", "Facts", ["C14", "C13"])
+@target("stateFacts", "Facts", ["C14", "C13", "C05"])
 def _state():
     out = []
     # GenericListTransformer.fit resets the list before appending
@@ -105,7 +105,7 @@ def _state():
 
 
 # ------------------------------------------------------------------------------------------------- routing of arguments
-@target("routingFacts", "Facts", ["C15", "C10", "C20", "C05", "C04", "C17", "C08", "C12"])
+@target("routingFacts", "Facts", ["C15", "C10", "C20", "C05", "C04", "C17", "C08", "C12", "C02", "C07", "C19"])
 def _routing():
     out = []
 
@@ -402,3 +402,68 @@ def _serialization():
             "serialised members = fit order) -/\n"
             f"def preprocessorDeserializeLoops : List String := [{', '.join(lean_str(x) for x in loops)}]\n"
             f"def preprocessorSerializeKeys : List String := [{', '.join(lean_str(x) for x in keys)}]\n")
+
+
+# ------------------------------------------------------------------------------------------------- data-flow facts
+def _step_order(fn, var_prefix):
+    """order (by source line) of the tagged steps applied to the projection variable(s) in a rotator's transform"""
+    steps = []
+    for n in ast.walk(fn):
+        if isinstance(n, ast.Assign) and ast.unparse(n.targets[0]) == var_prefix:
+            v = ast.unparse(n.value)
+            if "RinvT" in v and "xr.dot" in v:
+                steps.append((n.lineno, "rotate"))
+            elif "modes_sign" in v:
+                steps.append((n.lineno, "sign"))
+            elif "pseudo_norms" in v or "self.data['norm1']" in v or "self.data['norm2']" in v:
+                steps.append((n.lineno, "norms"))
+        if isinstance(n, ast.If) and ast.unparse(n.test) == "self.sorted" and "idx_modes_sorted" in ast.unparse(n) and \
+                any(isinstance(b, ast.Assign) and ast.unparse(b.targets[0]) == var_prefix for b in n.body):
+            steps.append((n.lineno, "reorder"))
+    return [s for _, s in sorted(steps)]
+
+
+@target("flowFacts", "Facts", ["C01", "C03", "C04", "C10", "C11", "C16"])
+def _flow():
+    out = []
+    # Hilbert transform: the mean of the imaginary part is removed per feature (axis 0 = samples)
+    path = "utils/hilbert_transform.py"
+    src, tree = load(path)
+    fn = find_func(tree, "_hilbert_transform_with_padding")
+    means = [ast.unparse(c) for c in ast.walk(fn) if isinstance(c, ast.Call) and ast.unparse(c.func).endswith(".imag.mean")]
+    if len(means) != 1:
+        raise TranslationError("re-centring of the imaginary part not found: " + str(means))
+    call = [c for c in ast.walk(fn) if isinstance(c, ast.Call) and ast.unparse(c.func).endswith(".imag.mean")][0]
+    args = ", ".join([ast.unparse(a) for a in call.args] + [f"{k.arg}={ast.unparse(k.value)}" for k in call.keywords])
+    out += [f"/-- {header(path, '_hilbert_transform_with_padding', src, fn)}: arguments of the mean that re-centres the imaginary part (`{means[0]}`) -/",
+            f"def hilbertRecentreMeanArgs : String := {lean_str(args)}"]
+    # PCA.inverse_transform_data multiplies with the conjugate transpose of V
+    path = "preprocessing/pca.py"
+    src, tree = load(path)
+    fn = find_func(tree, "PCA.inverse_transform_data")
+    rets = [ast.unparse(n.value) for n in ast.walk(fn) if isinstance(n, ast.Return) and n.value is not None and "xr.dot" in ast.unparse(n.value)]
+    if len(rets) != 1:
+        raise TranslationError("PCA.inverse_transform_data: projection not found")
+    out += [f"/-- {header(path, 'PCA.inverse_transform_data', src, fn)}: `{rets[0]}` -/",
+            f"def pcaInverseDataUsesConjTranspose : Bool := {'true' if rets[0] == 'xr.dot(X, self.V.conj().T, dims=' + repr('mode') + ')' else 'false'}"]
+    fn = find_func(tree, "PCA.transform")
+    rets = [ast.unparse(n.value) for n in ast.walk(fn) if isinstance(n, ast.Assign) and "xr.dot" in ast.unparse(n.value)]
+    out += [f"/-- `PCA.transform`: `{rets[0] if rets else '?'}` -/",
+            f"def pcaTransformUsesV : Bool := {'true' if rets == ['xr.dot(X, self.V, dims=self.feature_name)'] else 'false'}"]
+    # rotators: fit clears the `sorted` flag before sorting; transform applies rotate -> reorder -> (norms, sign)
+    for path, qual, nm, prefix in (("single/eof_rotator.py", "EOFRotator", "eofRotator", "projections"),
+                                   ("cross/cpcca_rotator.py", "CPCCARotator", "cpccaRotator", "projections1")):
+        src, tree = load(path)
+        fit = find_func(tree, qual + "._fit_algorithm")
+        resets = [s.lineno for s in fit.body if isinstance(s, ast.Assign) and ast.unparse(s.targets[0]) == "self.sorted" and ast.unparse(s.value) == "False"]
+        srt = find_func(tree, qual + "._sort_by_variance")
+        guarded = any(isinstance(s, ast.If) and ast.unparse(s.test) == "not self.sorted" for s in srt.body)
+        sets = any(isinstance(s, ast.Assign) and ast.unparse(s) == "self.sorted = True" for s in srt.body)
+        ok = bool(resets) and guarded and sets
+        out += [f"/-- {header(path, qual + '._fit_algorithm', src, fit)}: every fit clears the `sorted` flag that guards `_sort_by_variance` (`if not self.sorted: … ; self.sorted = True`) -/",
+                f"def {nm}FitResetsSorted : Bool := {'true' if ok else 'false'}"]
+        tf = find_func(tree, qual + ("._transform_algorithm" if qual == "EOFRotator" else ".transform"))
+        steps = _step_order(tf, prefix)
+        out += [f"/-- {header(path, qual + ' transform', src, tf)}: order of the steps applied to the projected scores -/",
+                f"def {nm}TransformSteps : List String := [{', '.join(lean_str(x) for x in steps)}]"]
+    return "\n".join(out) + "\n"
